@@ -478,7 +478,7 @@ func callRefComplete(c *Ctx, rule string) {
 		if s, ok := in.(*ssa.Store); ok && strings.HasSuffix(path(s.Addr), ".callRef") {
 			if call, ok := s.Val.(*ssa.Call); ok && builtinName(call) == "append" {
 				// the appended slice contains the parameter
-				if setStr(provOf(call.Call.Args[1])) == scr.Params[1].Name() {
+				if setStr(provOf(call.Call.Args[1])) == pname(scr.Params[1]) {
 					app = in
 				}
 			}
@@ -548,8 +548,8 @@ func walkerChainRules(c *Ctx, f *ssa.Function, recCalls []*ssa.Call, ruleCopy, r
 			pp := path(posArg)
 			mapped := ""
 			for k, prm := range g.Params {
-				if k < len(viaCall.Call.Args) && (pp == prm.Name() || strings.HasPrefix(pp, prm.Name()+".")) {
-					mapped = path(viaCall.Call.Args[k]) + strings.TrimPrefix(pp, prm.Name())
+				if k < len(viaCall.Call.Args) && (pp == pname(prm) || strings.HasPrefix(pp, pname(prm)+".")) {
+					mapped = path(viaCall.Call.Args[k]) + strings.TrimPrefix(pp, pname(prm))
 				}
 			}
 			key := fmt.Sprintf("%s %s position argument (through helper %s)", relName(f), cal.Name(), g.Name())
